@@ -429,7 +429,14 @@ def _s3_s4(program, model, res, s3="C06-S3", s4="C06-S4"):
                     res.fail_at(s4, m, f"shortcut:{unparse(guards[-1][0].cond) if guards else 'unguarded'}",
                                 f"`{unparse(v)}` bypasses self (and its constructor's validation) without a dominating check of "
                                 f"the argument against self.column_names: the collapsed pipeline accepts steps the stepwise one rejects", r_stmt)
-    res.expect_count(s3, "trivial-intermediate delegations", n_deleg, 12)
+    # every `if self.is_trivial_when_intermediate_()` of the builder class must have been recognised as a delegation (a repair that removes
+    # an elimination lowers both numbers; an unrecognised form of the skip must not pass silently)
+    n_guards = sum(1 for m in base.methods.values() for n in ast.walk(m.node)
+                   if isinstance(n, ast.If) and "is_trivial_when_intermediate_" in unparse(n.test))
+    if n_deleg < n_guards:
+        raise AnalysisError(f"{s3}: {n_guards} branches test is_trivial_when_intermediate_ but only {n_deleg} were recognised as delegations past the node")
+    if n_guards == 0:
+        res.ok(s3, "no builder skips intermediate nodes")
     res.expect_count(s4, "collapse shortcuts", n_short, 2)
 
 
@@ -506,6 +513,54 @@ def _s5(program, model, res):
                         f"keeps the two smallest x", r.stmt)
 
 
+def order_elimination_sites(model):
+    """(builder, return statement) for every `if self.is_trivial_when_intermediate_(): return self.sources[0].<builder>(...)`"""
+    out = []
+    for m in model.base.methods.values():
+        skips = [r for r in ast.walk(m.node) if isinstance(r, ast.Return) and isinstance(r.value, ast.Call) and isinstance(r.value.func, ast.Attribute)
+                 and unparse(r.value.func.value).startswith("self.sources[0]")]
+        if not skips:
+            continue
+        g = cfgmod.build(m.node)
+        for r in skips:
+            if not g.has_node(r):
+                continue
+            guards = g.lexical_guards(g.node_of(r))
+            if any(lab is True and "is_trivial_when_intermediate_" in unparse(b.cond) for b, lab in guards):
+                out.append((m, r))
+    return out
+
+
+def _s6(program, model, res):
+    """order_rows elimination is decided by the *next* builder call; it is sound only where that next step makes the incoming
+    row order unobservable.  Every builder that skips a trivial intermediate node is classified (facts.ORDER_ROLE_OF_BUILDERS)."""
+    from .. import facts
+    orn = program.cls("view_representations", "OrderRowsNode").methods.get("is_trivial_when_intermediate_")
+    if orn is None:
+        raise AnalysisError("anchor vanished: OrderRowsNode.is_trivial_when_intermediate_")
+    rets = [n for n in ast.walk(orn.node) if isinstance(n, ast.Return)]
+    if all(isinstance(r.value, ast.Constant) and r.value.value is False for r in rets):
+        res.ok("C06-S6", "order_rows is never eliminated from the interior of a chain")
+        return
+    sites = order_elimination_sites(model)
+    n = len(sites)
+    for (m, r) in sites:
+        role = facts.ORDER_ROLE_OF_BUILDERS.get(m.name)
+        if role is None:
+            res.fail_at("C06-S6", m, f"order-eliminated-before-unclassified-step:{m.name}",
+                        f"{m.name} skips a preceding un-limited order_rows, and what {m.name} does with the incoming row order is not in the confirmed table", r)
+        elif role[0] == "replaces":
+            res.ok("C06-S6", f"{m.name} may drop a preceding order_rows: {role[1]}")
+        else:
+            res.fail_at("C06-S6", m, f"order-eliminated-before-step-that-{role[0]}-row-order:{m.name}",
+                        f"{m.name} drops a preceding un-limited order_rows although its result {role[0]} the incoming row order ({role[1]}): "
+                        f"d.order_rows(['x']).{m.name.replace('_parsed_', '')}(...).order_rows([], limit=2) returns the first rows of the *unsorted* table "
+                        f"(and the ordering is also gone from a final result), while each step applied to the materialised result of the previous one keeps it. "
+                        f"The builder that decides the elimination cannot know whether a later step still depends on the order", r)
+    if n < 1:
+        raise AnalysisError("C06-S6: OrderRowsNode can be trivial when intermediate, but no builder consulting is_trivial_when_intermediate_ was recognised")
+
+
 def run(program, res, tier):
     res.rule("C06-S1", "merge guard entails used(ops2) ∩ keys(ops1) = ∅ on every merged return; ops2 is the last writer")
     res.rule("C06-S2", "merged ExtendNode only under equal partition/order/reverse/windowing")
@@ -518,3 +573,5 @@ def run(program, res, tier):
     _s2(program, model, res)
     _s3_s4(program, model, res)
     _s5(program, model, res)
+    res.rule("C06-S6", "an un-limited order_rows is eliminated only before a step that makes the incoming row order unobservable")
+    _s6(program, model, res)
